@@ -213,6 +213,7 @@ func Family(name string, tier string) []*Scenario {
 		out = append(out, readdAfterDeps(thorough)...)
 		out = append(out, unboundedRetries(thorough)...)
 		out = append(out, wrappedSkip(thorough)...)
+		out = append(out, errorsValueResults(thorough)...)
 	case "C14":
 		out = append(out, fourVertexSingleFault(thorough)...)
 		out = append(out, fiveVertexFaults(thorough)...)
@@ -225,6 +226,7 @@ func Family(name string, tier string) []*Scenario {
 		out = append(out, wrappedSkip(thorough)...)
 		out = append(out, percentIDs(thorough)...)
 		out = append(out, contextWrappingErrors(thorough)...)
+		out = append(out, errorsValueResults(thorough)...)
 		for n := 1; n <= 3; n++ {
 			for _, es := range AllDAGs(n) {
 				for _, scr := range assignments(n, []string{"ok", "err", "skip"}) {
@@ -1084,6 +1086,35 @@ func wrappedSkip(thorough bool) []*Scenario {
 				sc := GraphScenario(n, es, scr, nil, "par")
 				sc.Light = 1
 				out = append(out, sc)
+			}
+		}
+	}
+	return out
+}
+
+// errorsValueResults: the failing task returns a *dag.Errors value (empty, or with one entry): an error like any other.
+func errorsValueResults(thorough bool) []*Scenario {
+	var out []*Scenario
+	for n := 1; n <= 3; n++ {
+		for _, es := range AllDAGs(n) {
+			if n == 3 && !thorough {
+				continue
+			}
+			for v := 0; v < n; v++ {
+				for kind := 1; kind <= 2; kind++ {
+					scr := make([][]string, n)
+					for i := range scr {
+						scr[i] = []string{"ok"}
+					}
+					scr[v] = []string{"err"}
+					if !relevant(n, es, scr) {
+						continue
+					}
+					sc := GraphScenario(n, es, scr, nil, "par")
+					sc.ErrsKind = kind
+					sc.Light = 1
+					out = append(out, sc)
+				}
 			}
 		}
 	}
